@@ -1,6 +1,7 @@
 SPEC = {
     "id": "C06",
-    "drivers": [{"pkg": "internal/corerad", "test": "TestVerifAdvRun", "newgo": True, "timeout": 1500}],
+    "drivers": [{"pkg": "internal/corerad", "test": "TestVerifAdvRun", "newgo": True, "timeout": 1500},
+                {"pkg": "internal/corerad", "test": "TestVerifSlowSink", "newgo": True, "timeout": 600, "arch386": []}],
     "rule": "runs of the real Advertiser.Run under testing/synctest: (a) bounded-exhaustive histories of <=3 (quick) / <=4 "
             "(thorough) solicitations on the gap grid {0,1,2.9,3,3,3.1,5.9,6,9} s around the 3 s boundary (mostly from ::), each "
             "with the periodic loop far away (min=max=1800s) and tight (min=3s,max=4s); (b) random bursty histories of <=30 "
